@@ -1,7 +1,7 @@
 (* Dispatcher: one entry point for every executable model function. *)
 From Coq Require Import List ZArith Arith Bool QArith Qcanon.
 From MsmV Require Import Lib.Result Lib.PyList Lib.Sorting Run.Wire.
-From MsmV Require Import Lib.QMat Model.Labels Model.StateTraj Model.Msm Proofs.MsmFacts Model.Coring Proofs.CoringFacts Proofs.CoringWrap Model.Events Model.Similarity Spec.Wrappers Model.Ergodic Model.Peq Model.HS.
+From MsmV Require Import Lib.QMat Model.Labels Model.StateTraj Model.Msm Proofs.MsmFacts Model.Coring Proofs.CoringFacts Proofs.CoringWrap Model.Events Model.Similarity Spec.Wrappers Model.Ergodic Model.Peq Model.HS Model.Mcmc.
 Import ListNotations.
 Local Open Scope Z_scope.
 
@@ -164,6 +164,44 @@ Definition run_views (e : Z) (a : list Z) : option (list Z) :=
     | None => None end
   else None.
 
+Definition dcm : dec cummat := dlist (dpair (dlist dQ) (dlist dnat)).
+Definition ecm (cm : cummat) : list Z := elist (fun r => eQs (fst r) ++ enats (snd r)) cm.
+Definition edict2 (d : list (nat * nat)) : list Z := elist (fun kc => [Z.of_nat (fst kc); Z.of_nat (snd kc)]) d.
+
+Definition run_mcmc (e : Z) (a : list Z) : option (list Z) :=
+  if e =? 701 then      (* one row, many draws *)
+    match dpair (dlist dQ) (dpair (dlist dnat) (dlist dQ)) a with
+    | Some ((c, (p, us)), _) => Some (enats (map (fun u => mc_step [(c, p)] 0 u) us))
+    | None => None end
+  else if e =? 702 then
+    match dpair dcm (dpair dnat (dlist dQ)) a with
+    | Some ((cm, (start, us)), _) => Some (enats (propagate cm start us))
+    | None => None end
+  else if e =? 703 then  (* exact cumulative matrix of the model estimated from trajectories *)
+    match dpair dnested dnat a with
+    | Some ((ts, lag), _) =>
+        Some (eres (fun p => eQmat (fst p) ++ eZs (snd p) ++ eres ecm (get_cummat (fst p)))
+                   (estimate_markov_model ts lag))
+    | None => None end
+  else if e =? 704 then  (* cumulative matrix of a user matrix (propagate_tmat) *)
+    match dQmat a with
+    | Some (T, _) => Some (ebool (is_tmat atol8 T) ++ ecm (tmat_cummat T))
+    | None => None end
+  else if e =? 801 then
+    match dpair dcm (dpair dnat (dpair (dlist dnat) (dpair (dlist dnat) (dlist dQ)))) a with
+    | Some ((cm, (start, (Ss, (Fs, us)))), _) =>
+        let real := chain_from cm start us in
+        let dw := wt_online cm 0 false 0 start Ss Fs us [] in
+        let dt := tt_online cm 0 false 0 start Ss Fs us [] in
+        Some (edict2 dw ++ enats (chain_durations real Ss Fs) ++ edict2 dt ++ enats (chain_tt_durations real Ss Fs)
+              ++ enats real)
+    | None => None end
+  else if e =? 802 then
+    match dpair (dlist (dpair dnat dnat)) dnat a with
+    | Some ((d, lag), _) => Some (enats (hist_pts d) ++ eQs (hist_density d lag) ++ enats (hist_edges d lag))
+    | None => None end
+  else None.
+
 Definition run (req : list Z) : list Z :=
   match req with
   | [] => malformed
@@ -188,6 +226,9 @@ Definition run (req : list Z) : list Z :=
       | None =>
       match run_views e a with
       | Some r => r
+      | None =>
+      match run_mcmc e a with
+      | Some r => r
       | None => malformed
-      end end end end end end end
+      end end end end end end end end
   end.
